@@ -37,6 +37,9 @@ def gen_cases(tier, seed):
         yield {"kind": "late", "seed": "%d:late%d" % (seed, i), "impl": ("sync", "async")[i % 2], "api": APIS[(i // 2) % 3], "decode": bool((i // 6) % 2)}
     for i in range(300 if tier == "quick" else 6000):
         yield {"kind": "interleave", "seed": "%d:il%d" % (seed, i), "impl": ("sync", "async")[i % 2]}
+    # two device objects of one process, used alternately by one thread: the same stream ids are live on both
+    for i in range(60 if tier == "quick" else 1200):
+        yield {"kind": "twodev", "seed": "%d:td%d" % (seed, i), "impl": ("sync", "async")[i % 2]}
     # a device that writes far ahead of the acknowledgements: a long run of one stream's chunks is read (and parked) by another command's reader
     for i, b in enumerate([1100, 1500, 40, 2500] if tier == "quick" else [1100, 1500, 40, 2500, 5000, 1024, 1025, 1026, 3000, 10000]):
         for impl in ("sync", "async"):
@@ -68,6 +71,8 @@ def run_interleave(case):
     dims["noise"] = [x for x in dims["noise"] if x != "bg"]
     dims["remote"] = rng.choice(["swap", "swap", "same", "small", "random"])
     dims["id_start"] = rng.choice([0, 0, 2, 0xFFFFFFFC])
+    if case.get("early_close"):
+        dims["early_close"] = True      # the device closes a stream right behind its last WRTE, without waiting for the acknowledgement
     sess = gen.make_session(impl, dims, case["seed"])
     stats = {"bytes_compared": 0, "chunks": 0, "max_chunks": 0, "monitor_side_observations": 0, "interleaved_generators": 0, "interleave_switches": 0}
     viol = []
@@ -141,6 +146,110 @@ def run_interleave(case):
         return {"sig": sig, "violations": viol[:3], "stats": stats, "sample": sample, "c04": c04}
     finally:
         sess.dispose()
+
+
+def run_twodev(case):
+    """TWO device objects (each with its own transport and device) alive in one process; streaming_shell generators on both are consumed alternately by
+    one thread / task. Stream ids coincide on the two connections (both count from the same start, both devices number their streams alike): whatever one
+    object reads, parks or clears concerns that object only, so each generator must yield exactly its own device's chunks."""
+    from vlib import vclock
+    impl = case["impl"]
+    rng = gen.rng_for("C01td", case["seed"])
+    dims = gen.common_dims(rng)
+    dims["noise"] = []
+    dims["remote"] = rng.choice(["small", "same", "small"])
+    dims["id_start"] = rng.choice([0, 0, 2, 0xFFFFFFFC])
+    dims["pace"] = 0.0
+    sessions = [gen.make_session(impl, dims, case["seed"] + "/dev%d" % d) for d in range(2)]
+    stats = {"bytes_compared": 0, "chunks": 0, "two_device_cases": 1, "two_device_switches": 0}
+    viol = []
+    try:
+        n = rng.choice([3, 4, 4])
+        owner = [i % 2 for i in range(n)]
+        scripts = []
+        for i in range(n):
+            chunks = [("dev%d-g%d-%d:" % (owner[i], i, k)).encode() + bytes(rng.getrandbits(8) for _ in range(rng.choice([0, 1, 5, 40]))) for k in range(rng.randint(1, 4))]
+            sessions[owner[i]].sim.scripts[b"shell:g%d" % i] = list(chunks)
+            scripts.append(chunks)
+        got = [[] for _ in range(n)]
+        done = [False] * n
+        errors = []
+        gens = []
+        for i in range(n):
+            vclock.install(sessions[owner[i]].clock)
+            gens.append(sessions[owner[i]].dev.streaming_shell("g%d" % i, decode=False))
+
+        def advance(i):
+            se = sessions[owner[i]]
+            vclock.install(se.clock)
+            if impl == "sync":
+                try:
+                    got[i].append(next(gens[i]))
+                except StopIteration:
+                    done[i] = True
+            else:
+                async def one():
+                    try:
+                        got[i].append(await gens[i].__anext__())
+                    except StopAsyncIteration:
+                        done[i] = True
+                se.loop.run_until_complete(one())
+        last = None
+        guard = 0
+        reconnect_at = rng.choice([None, None, 3, 5])
+        while not all(done) and guard < 200:
+            guard += 1
+            live = [i for i in range(n) if not done[i]]
+            must = [i for i in live if len(got[i]) >= len(scripts[i])]
+            i = must[0] if must else rng.choice(live)
+            if last is not None and owner[i] != owner[last]:
+                stats["two_device_switches"] += 1
+            last = i
+            try:
+                advance(i)
+            except Exception as e:  # noqa
+                errors.append((i, e))
+                done[i] = True
+        where = "%s, %d generators on two device objects, remote ids %s, id start %d" % (impl, n, dims["remote"], dims["id_start"])
+        for (i, e) in errors:
+            viol.append({"mechanism": "twodev-raised:%s" % type(e).__name__, "detail": "%s: generator %d (device %d) raised %s: %s after %d of %d chunks" % (where, i, owner[i], type(e).__name__, str(e)[:100], len(got[i]), len(scripts[i]))})
+        for i in range(n):
+            if not any(e[0] == i for e in errors) and got[i] != scripts[i]:
+                viol.append({"mechanism": "twodev-wrong-output", "detail": "%s: generator %d (device %d) yielded %r, its device wrote %r" % (where, i, owner[i], got[i][:4], scripts[i][:4])})
+            elif got[i] == scripts[i]:
+                stats["bytes_compared"] += sum(len(c) for c in scripts[i])
+            stats["chunks"] += len(scripts[i])
+        # a close() + connect() of ONE object leaves the other one's streams alone: a second round on the untouched object
+        if not viol:
+            vclock.install(sessions[0].clock)
+            sessions[1].sim.scripts[b"shell:late"] = [b"late-1", b"late-2", b"late-3"]
+            vclock.install(sessions[1].clock)
+            g = sessions[1].dev.streaming_shell("late", decode=False)
+            try:
+                if impl == "sync":
+                    first = next(g)
+                else:
+                    first = sessions[1].loop.run_until_complete(g.__anext__())
+                vclock.install(sessions[0].clock)
+                o = sessions[0].call("close")
+                o2 = sessions[0].call("connect")
+                vclock.install(sessions[1].clock)
+                if impl == "sync":
+                    rest = list(g)
+                else:
+                    async def drain():
+                        return [x async for x in g]
+                    rest = sessions[1].loop.run_until_complete(drain())
+                if [first] + rest != [b"late-1", b"late-2", b"late-3"] or not o.ok or not o2.ok:
+                    viol.append({"mechanism": "twodev-wrong-output", "detail": "%s: after the OTHER object was closed and re-connected, a generator yielded %r" % (where, [first] + rest)})
+                stats["bytes_compared"] += 18
+            except Exception as e:  # noqa
+                viol.append({"mechanism": "twodev-raised:%s" % type(e).__name__, "detail": "%s: a generator on one object raised %s: %s while the OTHER object was closed and re-connected" % (where, type(e).__name__, str(e)[:100])})
+        sig = "td|%s|%d|%s|%s" % (impl, n, dims["remote"], ",".join(str(len(s_)) for s_ in scripts)) if stats["two_device_switches"] else None
+        return {"sig": sig, "violations": viol[:3], "stats": stats, "sample": {"case": case, "dims": dims, "chunks": [len(s_) for s_ in scripts]} if case["seed"].endswith("td3") else None}
+    finally:
+        for se in sessions:
+            se.dispose()
 
 
 def run_burst(case):
@@ -307,6 +416,8 @@ def run_case(case):
         return run_interleave(case)
     if case["kind"] == "late":
         return run_late(case)
+    if case["kind"] == "twodev":
+        return run_twodev(case)
     if case["kind"] == "burst":
         return run_burst(case)
     if case["kind"] == "straddle":
